@@ -471,8 +471,6 @@ func c9SerStage(p *logql_parser.StrSelectorPipeline) (string, error) {
 			return "", fmt.Errorf("parser %s", p.Parser.Fn)
 		}
 		var parts []string
-		fields := map[string]string{}
-		var order []string
 		for _, pp := range p.Parser.ParserParams {
 			if pp.Label == nil {
 				return "", fmt.Errorf("parameter without a label")
@@ -499,27 +497,14 @@ func c9SerStage(p *logql_parser.StrSelectorPipeline) (string, error) {
 				pth = strings.Join(segs, "/")
 			}
 			parts = append(parts, hx(pp.Label.Name)+"="+pth)
-			if len(path) > 0 {
-				if s, ok := path[0].(string); ok {
-					if _, seen := fields[s]; !seen {
-						order = append(order, s)
-					}
-					fields[s] = pp.Label.Name // map assignment: the later parameter wins
-				}
-			}
 		}
+		// the parameters go to the model as the code gets them (names, typed paths, in source order); what
+		// Process makes of them (aheads, logfmtFields) is the model's business (Read.planParser, paramFields)
 		switch p.Parser.Fn {
 		case "json":
 			return "P:jsonp:" + strings.Join(parts, ","), nil
 		case "logfmt":
-			fs := make([]string, len(order))
-			for i, k := range order {
-				fs[i] = hx(k) + "=" + hx(fields[k])
-			}
-			if len(fs) == 0 {
-				return "P:logfmtp:_", nil
-			}
-			return "P:logfmtp:" + strings.Join(fs, ","), nil
+			return "P:logfmtp:" + strings.Join(parts, ","), nil
 		}
 		return "", fmt.Errorf("parser %s", p.Parser.Fn)
 	case p.LabelFormat != nil:
@@ -986,7 +971,7 @@ func c9GenLabelCond(r *h.Rng, depth int) string {
 }
 
 func c9GenStage(r *h.Rng, tpls *[]c9Tpl) string {
-	switch r.Intn(12) {
+	switch r.Intn(15) {
 	case 0, 1:
 		op := h.Pick(r, []string{"|=", "!=", "|~", "!~"})
 		v := h.Pick(r, []string{"b", "a", "5", "err", "\"", "x", "", "boom", "v="})
@@ -998,23 +983,28 @@ func c9GenStage(r *h.Rng, tpls *[]c9Tpl) string {
 		return "| " + c9GenLabelCond(r, 2)
 	case 4:
 		return "| json"
-	case 5:
-		n := r.Range(1, 3)
+	case 5, 12, 13:
+		// any number of parameters; names may repeat (the engine sets them in document order), may be stream
+		// labels ("a", "lvl", "v", "ab", "x" occur in the generated streams), paths may be prefixes of each other
+		n := h.Pick(r, []int{1, 1, 2, 2, 3, 4, 5})
 		var ps []string
-		used := map[string]bool{}
 		for i := 0; i < n; i++ {
-			path := h.Pick(r, []string{"a", "v", "x.y", "x.z[0]", "ab", "msg", "[\"k 1\"]", "x", "n", "x.y.z", "b[1]", "K"})
-			lbl := h.Pick(r, []string{"a", "p", "q", "v", "lvl"})
-			if used[lbl] { // the same label twice: set in document order by the engine, in parameter order by LogQL
-				continue
-			}
-			used[lbl] = true
+			path := h.Pick(r, []string{"a", "v", "x.y", "x.z[0]", "ab", "msg", "[\"k 1\"]", "x", "n", "x.y.z", "b[1]", "K", "b", "lvl", "y", "x.a", "x.b", "b[0]", "[0]", "y.a", "x[\"k.1\"]", "y[1].a"})
+			lbl := h.Pick(r, []string{"a", "p", "q", "v", "lvl", "p", "q", "ab", "x"})
 			ps = append(ps, lbl+"="+q(path))
 		}
 		return "| json " + strings.Join(ps, ", ")
-	case 6:
-		if r.Chance(30) {
-			return "| logfmt " + h.Pick(r, []string{"a", "p", "lvl"}) + "=" + q(h.Pick(r, []string{"a", "v", "msg", "lvl"}))
+	case 6, 14:
+		if r.Chance(55) {
+			// logfmt with parameters: several may name the same key (the later wins), an index-first expression
+			// names no key, a longer path counts by its first segment
+			n := h.Pick(r, []int{1, 1, 2, 3, 4})
+			var ps []string
+			for i := 0; i < n; i++ {
+				expr := h.Pick(r, []string{"a", "v", "msg", "lvl", "a", "v", "ab", "n", "x.y", "[0]", "[\"k-1\"]", "b[1]", "k_1"})
+				ps = append(ps, h.Pick(r, []string{"a", "p", "lvl", "q", "p", "v"})+"="+q(expr))
+			}
+			return "| logfmt " + strings.Join(ps, ", ")
 		}
 		return "| logfmt"
 	case 7:
@@ -1609,6 +1599,28 @@ func c9Judge(r *h.Result, gens []*c9Gen) error {
 			}
 			for _, tg := range strings.Split(p.plan, " ")[0:1] {
 				for _, st := range strings.Split(tg, ";") {
+					if f := strings.SplitN(st, ":", 3); len(f) == 3 && (f[1] == "jsonp" || f[1] == "logfmtp") {
+						ps := strings.Split(f[2], ",")
+						names, firsts := map[string]int{}, map[string]int{}
+						for _, pr := range ps {
+							nv := strings.SplitN(pr, "=", 2)
+							names[nv[0]]++
+							firsts[strings.SplitN(nv[1], "/", 2)[0]]++
+						}
+						r.Count(fmt.Sprintf("params:%s:n=%d", f[1], min(len(ps), 4)))
+						if len(names) < len(ps) && nontrivial {
+							r.Count("params:" + f[1] + ":name-repeated")
+						}
+						if len(firsts) < len(ps) && nontrivial {
+							r.Count("params:" + f[1] + ":first-segment-shared")
+						}
+						for nm := range names {
+							if nontrivial && (nm == hx("a") || nm == hx("lvl") || nm == hx("v") || nm == hx("ab") || nm == hx("x")) {
+								r.Count("params:" + f[1] + ":names-a-stream-label")
+								break
+							}
+						}
+					}
 					r.Count("stage:" + strings.SplitN(st, ":", 3)[0] + func() string {
 						if strings.HasPrefix(st, "P:") {
 							return ":" + strings.SplitN(st, ":", 3)[1]
@@ -1671,7 +1683,7 @@ func c9Key(g *c9Gen, got, want string) string {
 
 func c09(r *h.Result, rng *h.Rng, tier string, replay string) error {
 	r.Rule = "grammar-directed LogQL scripts that force the in-process engine (| json, | logfmt or | line_format, then 0–3 further stages: " +
-		"line/label filters, json with paths, logfmt, label_format, line_format, drop; log queries with limits 0/1/2/3/10/100/5000, range, unwrap (by/without) " +
+		"line/label filters, json with 1–5 path parameters (repeated names, names of stream labels, nested/prefix paths, indexes), logfmt with 0–4 parameters, label_format, line_format, drop; log queries with limits 0/1/2/3/10/100/5000, range, unwrap (by/without) " +
 		"and vector aggregations with comparisons) over 1–4 series of JSON (valid, nested, arrays, truncated, broken literal, non-object, trailing text), " +
 		"logfmt (bare keys, quoted, unterminated) or plain lines; timestamps biased to window and bucket edges (from, to, last bucket end, before from); " +
 		"streams end with the getter's EOF marker (80 %), nothing, or an upstream error; each flat list is fed in several batchings incl. empty batches. " +
@@ -1801,6 +1813,13 @@ func c9Corpus() []*c9Gen {
 		// equal label sets reached from different streams are one series
 		c9Fixed(`count_over_time({x="y"} | json | label_format a="k" [1m])`, base, base+60e9, 100, []c9Entry{{Ts: base + 3, Fp: 1, Labels: x, Msg: `{"a":"1"}`}, {Ts: base + 2, Fp: 1, Labels: x, Msg: `{"a":"2"}`}, eof}),
 		c9Fixed(`count_over_time({x="y"} | json | drop a [1m])`, base, base+60e9, 100, []c9Entry{{Ts: base + 3, Fp: 1, Labels: x, Msg: `{"a":"1"}`}, {Ts: base + 2, Fp: 1, Labels: x, Msg: `{}`}, eof}),
+		// json with several parameters: one name twice (document order decides), a stream label overwritten, a path that
+		// is a prefix of another, the same path under two names, an index, a key that occurs twice, a document cut in the middle
+		c9Fixed(`{x="y"} | json | json p="a", p="b"`, base, base+100e9, 100, []c9Entry{{Ts: base + 3, Fp: 1, Labels: x, Msg: `{"b":"1","a":"2"}`}, {Ts: base + 2, Fp: 1, Labels: x, Msg: `{"a":"3","b":"4"}`}, {Ts: base + 1, Fp: 1, Labels: x, Msg: `{"a":"5"}`}, eof}),
+		c9Fixed(`{x="y"} | json | json x="a", q="a", r="c.d", s="c.d[1]", t="c"`, base, base+100e9, 100, []c9Entry{{Ts: base + 3, Fp: 1, Labels: x, Msg: `{"a":"1","c":{"d":[7,8]},"a":"2"}`}, {Ts: base + 2, Fp: 1, Labels: x, Msg: `{"c":{"d":"s"},"c":"t"}`}, {Ts: base + 1, Fp: 1, Labels: x, Msg: `{"c":{"d":[7,8`}, eof}),
+		c9Fixed(`count_over_time({x="y"} | json | json x="a", x="b" [1m])`, base, base+60e9, 100, []c9Entry{{Ts: base + 3, Fp: 1, Labels: x, Msg: `{"b":"1","a":"2"}`}, {Ts: base + 2, Fp: 1, Labels: x, Msg: `{"a":"2","b":"1"}`}, {Ts: base + 1, Fp: 1, Labels: x, Msg: `{"a":"2","b":tru`}, eof}),
+		// logfmt with several parameters: two names for one key (the later wins), an index-first expression, a longer path
+		c9Fixed(`{x="y"} | logfmt p="a", q="a", r="[0]", s="b.c", x="d"`, base, base+100e9, 100, []c9Entry{{Ts: base + 3, Fp: 1, Labels: x, Msg: `a=1 b=2 d=3`}, {Ts: base + 2, Fp: 1, Labels: x, Msg: `b=5 a="6`}, eof}),
 	}...)
 }
 
